@@ -13,6 +13,7 @@ import LlgVerif.Proofs.IntRangeMain
 import LlgVerif.Proofs.FloatRange
 import LlgVerif.Proofs.FloatPos
 import LlgVerif.Proofs.FloatHalf
+import LlgVerif.Proofs.NumSat
 namespace LlgVerif
 open Rx
 
@@ -475,6 +476,15 @@ theorem c08_float_le (r : FB) (ri : Bool) (p : PR) (h : floatLe r ri = .ok p)
       (∃ ip fd, AllDig fd ∧ w = 45 :: (dec ip ++ fracBytes fd) ∧ (0 < ip ∨ (0 = ip ∧ fracLT [] fd))) ∨
       (∃ ip fd, AllDig fd ∧ w = dec ip ++ fracBytes fd ∧ leB ri ip fd r.ip r.fd) :=
   floatLe_pos_lang r ri p h hneg hr0 hr hrn w
+
+/-- **C08 (empty combinations).**  With bounds and `multipleOf` brought to a common decimal scale
+(for integers the step is `lcm(multipleOf, 1)`), `hasMult` says "not empty" exactly when some
+multiple of the step satisfies both bounds — the question `check_number_bounds` answers before a
+number schema is compiled. -/
+theorem c08_emptiness (lo : Int) (lex : Bool) (hi : Int) (hex : Bool) (step : Int) (hs : 0 < step) :
+    hasMult lo lex hi hex step = true ↔
+      ∃ z, step ∣ z ∧ (lo < z ∨ (lo = z ∧ lex = false)) ∧ (z < hi ∨ (z = hi ∧ hex = false)) :=
+  hasMult_iff lo lex hi hex step hs
 
 /-! non-vacuity: `maximum 0.15` (digits [1,5], inclusive): `0.1`, `0.15`, `0.150`, `0.09` are inside, `0.2` is not -/
 example : fracLE [1] [1, 5] ∧ fracLE [1, 5, 0] [1, 5] ∧ fracLE [0, 9] [1, 5] ∧ ¬ fracLE [2] [1, 5] := by
